@@ -176,7 +176,7 @@ def hier_cases(draw, tier):
     rawpo = draw(st.lists(st.integers(0, 9999), min_size=1, max_size=4))
     seq = draw(st.lists(st.tuples(st.sampled_from(['copy', 'pickle', 'elim', 'subst', 'subst', 'resolve']), st.integers(0, 9)), min_size=1, max_size=5))
     pats = draw(st.lists(st.integers(0, (1 << 16) - 1), min_size=16, max_size=16))
-    return dict(subs=subs, npi=npi, raw=[[a, list(b), c] for a, b, c in raw], rawd=rawd, rawpo=rawpo, seq=[list(x) for x in seq], pats=pats)
+    return dict(warm=draw(st.sampled_from([0, 0, 1])), subs=subs, npi=npi, raw=[[a, list(b), c] for a, b, c in raw], rawd=rawd, rawpo=rawpo, seq=[list(x) for x in seq], pats=pats)
 
 
 def elaborate(case):
@@ -282,10 +282,26 @@ def prop_hier(case):
             impls.append(Circuit('empty'))
         else:
             impls.append(build(nl, name='impl').c)
+            # an implementation may have been used before with its ports in another order and then corrected in place (same node, line and port
+            # counts): later substitutions follow the current port list
+            ic = impls[-1]
+            if case.get('warm') and len(ic.io_nodes) >= 2:
+                from kyupy.circuit import Circuit, Node
+                final = list(ic.io_nodes)
+                for i in range(len(final)):
+                    ic.io_nodes[i] = final[(i + 1) % len(final)]
+                scratch = Circuit('scratch')
+                try:
+                    scratch.substitute(Node(scratch, 'u', 'SUBX'), ic)
+                except Exception:       # the rotated interface need not be a meaningful cell; only the real uses below are judged
+                    pass
+                for i, n in enumerate(final):
+                    ic.io_nodes[i] = n
     lib = Lib({f'SUB{j}': (impls[j], {}) for j in range(len(subs))})
     io_names = [n.name for n in c.io_nodes]
     removed_node = False
     labels = set()
+    if case.get('warm'): labels.add('implementation_used_before_and_edited_in_place')
     for op, arg in case['seq']:
         before_state = [n.name for n in c.s_nodes[len(c.io_nodes):]]
         if op == 'copy':
